@@ -8,9 +8,11 @@ CONSTANTS
   HasCache = TRUE
   CachePutBeforeDbWrite = TRUE
   BulkVersionsUsesEpoch = FALSE
+  FillPolicy = "if_same_generation"
   Export = FALSE
   MaxSteps = 5
   WithReads = TRUE
+  SplitReads = FALSE
 INIT MCInit
 NEXT MCNext
 VIEW View
